@@ -160,7 +160,9 @@ func runC16(c *vh.Ctx) {
 	c.Rule("structured programs: intent-driven random call graphs (0-6 functions, 0-4 parameters, parameters shadowing globals and " +
 		"special variables, native functions, scalar/array/length/in/split/delete/for-in/sub uses, nested calls, non-variable and grouped " +
 		"arguments, fewer arguments than parameters, guarded recursion) with 0-20% contradicting uses, plus the named shapes chain(n<=400, three " +
-		"name orders), cycle, diamond, unused-parameter, local-array; each under every permutation of its top-level items (<=6 items, else " +
+		"name orders), cycle, diamond, unused-parameter, local-array, and call-shape programs (3-6 functions, 1-4 parameters mixing arrays and " +
+		"scalars in every order, nested user calls as scalar arguments up to depth 3, local arrays, fewer arguments) checked against a reference " +
+		"evaluator; each structured program under every permutation of its top-level items (<=6 items, else " +
 		"sampled) and three renamings; non-trivial = the program has a call that passes a variable to an AWK function")
 
 	var progs []*prog
@@ -359,6 +361,7 @@ func runC16(c *vh.Ctx) {
 	}
 
 	semanticProbes(c)
+	callShapeOracle(c)
 
 	// correspondence with the Lean model
 	if c.HasLean() {
